@@ -12,6 +12,7 @@
 package vrt
 
 import (
+	"os"
 	"fmt"
 	"runtime"
 	"runtime/debug"
@@ -274,6 +275,9 @@ func (x *Exec) yield(t *Thread) {
 		if x.ntrace < MaxPoints {
 			x.Trace[x.ntrace] = int16(next)
 			x.ntrace++
+		}
+		if traceSteps {
+			println("step: clock", x.clock, "thread", t.ID, t.Name, "at", t.what, "-> runs", next, x.threads[next].what)
 		}
 		if next == t.ID {
 			t.can = nil
@@ -554,6 +558,8 @@ func NextObjID() int {
 }
 
 var passObjSeq int
+
+var traceSteps = os.Getenv("VERIF_TRACE_STEPS") != "" // debugging aid: print every scheduling decision
 
 // LockStateObservable is set (by a file vinstr generates) when the code under test calls TryLock or
 // TryRLock somewhere: the quick tier's left-mover reduction (no scheduling point before a pure release)
